@@ -19,7 +19,7 @@
    realise put_slice_spec on the real AST, layout independence and entry-point agreement of the implementation. *)
 From Coq Require Import ZArith List Bool Lia.
 From PF Require Import kernel.PyBase kernel.Container gen.Fixups models.View
-  proofs.FixupsProofs proofs.ContainerProofs proofs.ViewProofs models.Arglikes proofs.ArglikesProofs models.ArgMarkers proofs.ArgMarkersProofs.
+  proofs.FixupsProofs proofs.ContainerProofs proofs.ViewProofs models.Arglikes proofs.ArglikesProofs models.ArgMarkers proofs.ArgMarkersProofs models.ViewName proofs.ViewNameProofs.
 Import ListNotations.
 
 Theorem C03_index_is_python_index : forall len i, (0 <= len)%Z ->
@@ -201,3 +201,23 @@ Example C03_nonvacuous :
   fixup_slice_indices 5 (Ix (-2)) End 0 = Some (3, 5)%Z /\
   fixup_slice_indices 5 (Ix 4) (Ix 2) 0 = None.
 Proof. vm_compute. repeat split; reflexivity. Qed.
+
+(* ---- name indexing of a statement-list view (models/ViewName.v) ---- *)
+Theorem C03_name_index_is_relative_to_the_view_and_names_its_first_definition_there : forall names start stop off name r,
+  name_index names start stop off name = Some r ->
+  r < stop - start /\ nth_error names (start + off + r) = Some (Some name)
+  /\ forall j, j < r -> nth_error names (start + off + j) <> Some (Some name).
+Proof. exact name_index_sound. Qed.
+Print Assumptions C03_name_index_is_relative_to_the_view_and_names_its_first_definition_there.
+
+Theorem C03_name_index_refuses_a_name_no_element_of_the_view_defines : forall names start stop off name,
+  name_index names start stop off name = None ->
+  forall j, j < stop - start -> nth_error names (start + off + j) <> Some (Some name).
+Proof. exact name_index_refuses_outside. Qed.
+Print Assumptions C03_name_index_refuses_a_name_no_element_of_the_view_defines.
+
+Theorem C03_name_index_without_the_views_start_is_wrong :
+  let names := [None; Some 1; Some 2; Some 3; None] in
+  name_index names 2 5 0 2 = Some 0 /\ name_index_not_relative names 2 5 0 2 = Some 2 /\ name_index_not_relative names 2 5 0 3 = Some 3.
+Proof. exact not_relative_is_wrong. Qed.
+Print Assumptions C03_name_index_without_the_views_start_is_wrong.
